@@ -293,3 +293,37 @@ def banks_stateless(ctx, R):
             n += 1
             no_shared_state(ctx, R, fi, "filters.%s" % fi.name)
     ctx.floor(R, n, 30)
+
+
+def vector_stores(prog, f, seed=None):
+    """Vectorised counterpart of bin_stores: stores `ARR[a:] (+)= V[b:...]` (or `= V`) outside loops, V built from an index
+    vector np.arange(c, .).  Element t of ARR receives V at arange value c + b + (t - a); the index vector is replaced by
+    BIN + (c + b - a) so that the value is expressed at the array index BIN."""
+    ev = SymEval(prog, f, seed=seed or {}, inline_props=False).run()
+    rn = set(result_names(f))
+    out = []
+    for st in f.node.body:
+        if not isinstance(st, (ast.Assign, ast.AugAssign)) or not ev.reached(st):
+            continue
+        tgts = st.targets if isinstance(st, ast.Assign) else [st.target]
+        for t in tgts:
+            if not (isinstance(t, ast.Subscript) and isinstance(t.value, ast.Name) and t.value.id in rn and isinstance(t.slice, ast.Slice)):
+                continue
+            if t.slice.step is not None or t.slice.upper is not None:
+                continue
+            a = ev.eval_at(st, t.slice.lower) if t.slice.lower is not None else S.ZERO
+            v = ev.eval_at(st, st.value)
+            b = S.ZERO
+            if cc.is_call(v, "getitem") and cc.is_call(v.args[2], "slice") and v.args[2].args[3] == S.NONE:
+                b = v.args[2].args[1] if v.args[2].args[1] != S.NONE else S.ZERO
+                v = v.args[1]
+            gens = [x for x in S.walk(v) if cc.is_call(x, "np.arange")]
+            if not gens:
+                continue
+            m = {}
+            for gx in gens:
+                pos = [a_ for a_ in gx.args[1:] if not (a_.op == "call" and isinstance(a_.args[0], str) and a_.args[0].startswith("kw:"))]
+                c0 = pos[0] if len(pos) >= 2 else S.ZERO
+                m[gx] = S.add(S.sym("BIN"), S.sub(S.add(c0, b), a))
+            out.append({"loop": None, "stmt": st, "guard": ev.guard_of(st), "index": S.sym("BIN"), "value": S.subst(v, m), "array": t.value.id, "range": None, "ev": ev})
+    return out
